@@ -166,6 +166,20 @@ def run_body_factory(name, N, G, seed, objective="std"):
     def body(ctx):
         from .c_support import run_algorithm
         viol = []
+        base_obj = objective.split("+")[0]
+        g = (lambda v: [v[0] - 0.5]) if "+half" in objective else None          # the right half of the box violates
+        before = None
+        if "+fail" in objective:
+            calls = {"n": -1}
+
+            def before(problem, individual):
+                calls["n"] += 1
+                if calls["n"] in (1, 4, N + 2):
+                    raise (TimeoutError if calls["n"] % 2 else RuntimeError)("scripted")
+
+        def objective_only(cs):
+            # no constraints: every design is feasible, whatever the markers say -- judged on the objectives alone
+            return tuple(cs) if g is not None else tuple(cs[:-1]) + (True,)
 
         def prepare(problem, alg):
             inner = alg.update_global_best
@@ -197,14 +211,14 @@ def run_body_factory(name, N, G, seed, objective="std"):
                     if b is None:
                         continue
                     after = list(p.features['best_cost'])
-                    if after != b and ref_dominance(tuple(b), tuple(after)) == 1:
+                    if after != b and ref_dominance(objective_only(b), objective_only(after)) == 1:
                         viol.append(("C18:run:pbest-regressed:%s" % name, "personal best %r replaced by dominated %r" % (b, after)))
-                    elif after == b and pos != b and ref_dominance(tuple(b), tuple(pos)) != 1:
+                    elif after == b and pos != b and ref_dominance(objective_only(b), objective_only(pos)) != 1:
                         viol.append(("C18:run:pbest-not-updated:%s" % name, "position %r not dominated by best %r but not taken" % (pos, b)))
             alg.update_particle_best = wrapped_pb
         problem, alg, exc = run_algorithm(name, ctx, seed, N, G, n_params=2, n_costs=2, bounds=[[0.0, 1.0], [-2.0, 2.0]],
-                                          prepare=prepare, shim_cfg={"extreme_values": True},
-                                          f=tradeoff if objective == "tradeoff" else None)
+                                          prepare=prepare, shim_cfg={"extreme_values": True}, g=g, before=before,
+                                          f=tradeoff if base_obj == "tradeoff" else None)
         desc = "%s N=%d G=%d objective=%s" % (name, N, G, objective)
         # state invariant after the run, whichever route the algorithm took to maintain the personal bests: no recorded
         # particle's own evaluated position dominates the personal best recorded for it (it would have replaced it)
@@ -213,7 +227,8 @@ def run_body_factory(name, N, G, seed, objective="std"):
                 b = ind.features.get('best_cost')
                 if b is None or not ind.costs_signed or len(b) != len(ind.costs_signed):
                     continue
-                if ref_dominance(tuple(ind.costs_signed), tuple(b)) == 1:
+                pos_c, best_c = objective_only(ind.costs_signed), objective_only(b)
+                if ref_dominance(pos_c, best_c) == 1:
                     viol.append(("C18:run:position-dominates-recorded-pbest:%s" % name,
                                  "a particle at %r with costs %r carries the personal best %r, which its own position dominates" % (
                                      list(ind.vector), list(ind.costs_signed), list(b))))
@@ -323,6 +338,15 @@ def run(tier, seed):
         for (N, G) in ((4, 12), (8, 5), (3, 20)):
             for objective in ("std", "tradeoff"):
                 shards.append(("run", name, N, G, seed, 0, 0, 1, objective))
+    for name in ("OMOPSO", "SMPSO", "PSOGA"):
+        # transient failures in unconstrained runs; constrained runs; swarms and leader archives beyond the explored sizes
+        for (N, G) in ((2, 2), (3, 2), (6, 4), (6, 10), (4, 6)):
+            shards.append(("run", name, N, G, seed, 1 if N <= 3 else 0, 0, 1, "tradeoff+fail"))
+            shards.append(("run", name, N, G, seed, 1 if N <= 3 else 0, 0, 1, "std+fail"))
+            shards.append(("run", name, N, G, seed, 1 if N <= 3 else 0, 0, 1, "tradeoff+half"))
+        for (N, G) in ((31, 2), (32, 3), (33, 3), (48, 4), (64, 2), (65, 3), (100, 2)):
+            shards.append(("run", name, N, G, seed, 0, 0, 1, "tradeoff+half"))
+            shards.append(("run", name, N, G, seed, 0, 0, 1, "tradeoff"))
     col = run_shards(_shard, shards)
     return col, {"exhaustive": col.counters.get("caps_hit", 0) == 0, "boxes": BOXES}
 
